@@ -321,6 +321,43 @@ func checkC20(args []string) {
 		}
 		run.Cov["single_field_option_sets_on_a_large_picture"] = nBig
 	}
+	// images of boundary width with content: 16383 x 67 grey noise whose rows 64..66 repeat rows 0..2 (the only matches a
+	// lossless coder finds lie exactly 64 rows = 16383 << 6 pixels back, the window of the middle quality class at
+	// this width). In-range options: Encode returns nil, so the file must decode to the picture.
+	{
+		const bw, bh = 16383, 67
+		wide := image.NewNRGBA(image.Rect(0, 0, bw, bh))
+		for i := 0; i < bw*bh; i++ {
+			v := uint8(rng.Intn(256))
+			wide.Pix[4*i], wide.Pix[4*i+1], wide.Pix[4*i+2], wide.Pix[4*i+3] = v, uint8(rng.Intn(256)), v, 255
+		}
+		copy(wide.Pix[64*wide.Stride:], wide.Pix[:3*wide.Stride])
+		quals := []float32{40, 75}
+		if run.Thorough() {
+			quals = []float32{40, 75, 26, 50, 51, 20, 100}
+		}
+		for _, q := range quals {
+			name := fmt.Sprintf("16383x67 noise with rows repeated 64 rows below, lossless Quality %v Method 3", q)
+			out, err, pan := safeEncode(wide, &webp.EncoderOptions{Lossless: true, Quality: q, Method: 3})
+			run.Eval("boundary-width|" + name)
+			if pan != nil {
+				run.Violate("panic|boundary width with content", fmt.Sprintf("Encode panicked on %s: %v", name, pan), name)
+				continue
+			}
+			if err != nil {
+				run.Violate("valid-rejected|boundary width with content", fmt.Sprintf("Encode rejected %s: %v", name, err), name)
+				continue
+			}
+			im, derr := guardedDecode(out)
+			if derr != nil {
+				run.Violate("undecodable|boundary width with content", fmt.Sprintf("%s: Encode returned nil but the file does not decode: %v", name, derr), name)
+				continue
+			}
+			if got, ok := im.(*image.NRGBA); !ok || got.Bounds() != wide.Bounds() || !bytes.Equal(got.Pix, wide.Pix) {
+				run.Violate("invalid-file|boundary width with content", name+": the file decodes to another picture", name)
+			}
+		}
+	}
 	// EmulateJpegSize, nil options, nil arguments, boundary images, oversized metadata
 	d1, _, _ := safeEncode(img, webp.DefaultOptions())
 	// nil options = DefaultOptions(), on pictures on which every default matters: graded and soft-edged alpha (the alpha
